@@ -184,11 +184,16 @@ def check_space(sp, model, label, base=None):
         return ("dir-mismatch", "%s: dir() %r vs containers %r (only in dir: %r, missing from dir: %r)" % (
             label, len(got), len(want), sorted(got - want), sorted(want - got)))
     if PROBE in sp.cells:
+        seen = None
         try:
             seen = set(sp.cells[PROBE]()) - {"__builtins__"}
         except Exception as exc:
-            return ("probe-raised", "%s: the probe formula raised %r" % (label, mx.get_error() or exc))
-        if seen != want:
+            err = mx.get_error() or exc
+            if type(err).__name__ != "DeletedObjectError":
+                return ("probe-raised", "%s: the probe formula raised %r" % (label, err))
+            # (a reference whose target object was deleted makes the namespace unusable: dangling object
+            #  references are outside the properties, DESIGN.md 11.2)
+        if seen is not None and seen != want:
             return ("formula-namespace", "%s: names visible to formulas differ from the containers: only formulas see "
                                          "%r, formulas do not see %r" % (label, sorted(seen - want), sorted(want - seen)))
     # attribute access: expected kind, space-level references before model-level ones
